@@ -191,7 +191,6 @@ pub fn leg_faults(thorough: bool) -> Value {
                             Op::Gcv(..) => tags.push("C08"),
                             Op::AddVersion(..) => tags.push("C02"),
                             Op::GetSnap(..) => tags.push("C11"),
-                            Op::AddSnap(..) => tags.push("C10"),
                             _ => {}
                         }
                     }
